@@ -899,7 +899,8 @@ pub fn replay(part: &str, bytes: &[u8], case: &Value, stats: &mut Stats) -> Verd
 /// Byte-level entry for the fuzz target: layer A (in-process, stateful).
 pub fn fuzz_entry(bytes: &[u8]) -> Verdict {
     let mut st = Stats::new();
-    if bytes.first().map(|b| b & 0x80 != 0).unwrap_or(false) {
+    // one execution in eight plays a game out (part 'selfplay' without its heavy warm-ups)
+    if bytes.first().map(|b| b & 0xe0 == 0xe0).unwrap_or(false) {
         NO_HEAVY.with(|c| c.set(true));
         part_selfplay(bytes, &mut st)
     } else {
